@@ -18,7 +18,7 @@ RULE = ("random grammars (ambiguous, epsilon productions, left recursion) x all 
         "documented exception (recursive descent: judged only on grammars without epsilon productions, unit cycles and "
         "left/right-recursive variables, under a step budget). Non-trivial: the grammar has >=2 productions and a "
         "member word of length >=2; distinct = case hash." % N +
-        ' Later additions: derivation listings also from inner nodes and repeated; LL(1) nullable tails; print-alike and blank-containing terminals; words in several forms.')
+        ' Later additions: derivation listings also from inner nodes and repeated; LL(1) nullable tails; print-alike and blank-containing terminals; words in several forms; layered grammars (no epsilon, no recursion, bodies starting with variables, alternatives sharing a tail) whose members the recursive-descent parser must all accept, from the left and from the right.')
 ASSUMPTIONS = ["the empty word is not judged for the normal-form tree",
                "RecursionError / budget overrun of the recursive-descent parser on left/right-recursive grammars is "
                "documented behaviour: counted, not judged"]
@@ -337,6 +337,8 @@ def plan(tier, rng, sl, nslices, stats):
         r = i % 4
         if r == 0:
             yield dict(ll1_biased(rng), parsers=["cnf", "ll1", "rd"])
+        elif i % 8 == 6:
+            yield dict(gcfg.layered_case(rng), parsers=["cnf", "rd"])
         elif r == 1:
             # recursive-descent friendly: no epsilon, bodies start with a terminal (no left recursion)
             c = ll1_biased(rng)
@@ -446,7 +448,12 @@ def run_case(c, stats):
         if ok:
             doc_ok = not ref.has_eps_prod() and not rec
             budget = 200000 if doc_ok else 15000
-            for w in (words[:25] if doc_ok else words[1:5]):
+            rd_words = words[:25] if doc_ok else words[1:5]
+            if c.get("layered") and doc_ok:
+                # members first (every one of them up to six symbols), then some non-members
+                mem = sorted(ref.words(6), key=lambda x: (len(x), repr(x)))[:24]
+                rd_words = [list(w) for w in mem] + [w for w in words if tuple(w) not in set(mem)][:8]
+            for w in rd_words:
                 for left in (True, False):
                     try:
                         with core.step_budget(budget):
